@@ -369,6 +369,20 @@ pub fn generate(suite: &str, seed: u64, count: u64, tier: &str) -> Vec<String> {
             }
         }
         "wrecv" => {
+            // windows wider than 1024 blocks (one flush = more than IOV_MAX buffers), loss-free and with one repeated window
+            for (ws, nb) in [(1500u64, 1501u64), (4096, 4100), (1025, 2050)] {
+                let blk = 8u64;
+                let size = (nb - 1) * blk + 3;
+                let chunk = |k: u64| -> Vec<u8> { ((k - 1) * blk..(k * blk).min(size)).map(|i| pat_byte(7, i)).collect() };
+                let mut evs: Vec<String> = vec![];
+                for k in 1..=nb {
+                    evs.push(ev_d(0, &data(k, chunk(k))));
+                    if k == ws {
+                        evs.push(ev_d(0, &data(k, chunk(k)))); // the last block of the first window again
+                    }
+                }
+                out.push(format!("recv {blk} {ws} {} 1 1 - {}", SEC, join(&evs)));
+            }
             for _ in 0..count {
                 out.push(gen_recv(&mut rng));
             }
